@@ -412,6 +412,22 @@ def priors_native(vc):
                and np.allclose(P.gradient(theta), lik.gradient(theta) + J.gradient(theta))
                and P.cost(theta) == -P(theta) and np.allclose(P.cost_gradient(theta), -P.gradient(theta)))
     k = int(rng.integers(1, 6))
-    guesses = P.generate_initial_guesses(n_guesses=k, prior_samples=20)
+    n_draws = int(rng.integers(k, 25))
+    drawn = []
+    orig_sample = J.sample
+
+    def recording_sample():
+        x = orig_sample()
+        drawn.append(np.array(x, dtype=float).copy())
+        return x
+    J.sample = recording_sample
+    try:
+        guesses = P.generate_initial_guesses(n_guesses=k, prior_samples=n_draws)
+    finally:
+        del J.sample
     costs = [P.cost(gs) for gs in guesses]
     vc.ensures("initial_guesses_in_increasing_cost", len(guesses) == k and all(a <= b for a, b in zip(costs, costs[1:])))
+    # ... and they are the k cheapest of ALL the prior draws that were made (as many draws as requested)
+    all_costs = sorted(P.cost(x) for x in drawn)
+    vc.ensures("initial_guesses_are_the_best_of_all_prior_draws",
+               len(drawn) == n_draws and len(guesses) == k and np.allclose(costs, all_costs[:k], rtol=1e-12, atol=0))
